@@ -435,8 +435,21 @@ type boundedResult struct {
 var boundedLineRe = regexp.MustCompile(`LZVC-BOUNDED name=(\S+) cases=(\d+) bound=(.*)`)
 
 func runBounded(repo, verif, prop, tier string) []*boundedResult {
-	files, _ := filepath.Glob(filepath.Join(verif, "bounded", prop+"_*_test.go"))
-	sort.Strings(files)
+	all, _ := filepath.Glob(filepath.Join(verif, "bounded", "*_test.go"))
+	sort.Strings(all)
+	var files []string
+	for _, f := range all {
+		// a stand-in serves the property of its file name prefix and those listed in a "lzvc-props:" comment
+		if strings.HasPrefix(filepath.Base(f), prop+"_") {
+			files = append(files, f)
+			continue
+		}
+		if b, err := os.ReadFile(f); err == nil {
+			if m := regexp.MustCompile(`(?m)^// lzvc-props:(.*)$`).FindSubmatch(b); m != nil && hasProp(strings.Fields(string(m[1])), prop) {
+				files = append(files, f)
+			}
+		}
+	}
 	var out []*boundedResult
 	for _, f := range files {
 		src, err := os.ReadFile(f)
